@@ -43,11 +43,11 @@ def snapshot(iso):
             "index": list(d.index), "props": dict(iso.properties), "mat": str(iso.material), "ads": str(iso.adsorbate)}
 
 
-def make_iso(pg, w, lab, ps, ls, tval):
+def make_iso(pg, w, lab, ps, ls, tval, branch=None):
     import pandas as pd
     n = len(ps)
     data = pd.DataFrame({"pressure": ps, "loading": ls, "enthalpy": [5.0 + i for i in range(n)], "tag": [f"r{i}" for i in range(n)]})
-    br = [0] * (n - n // 3) + [1] * (n // 3)
+    br = branch if branch is not None else [0] * (n - n // 3) + [1] * (n // 3)
     return pg.PointIsotherm(isotherm_data=data, pressure_key="pressure", loading_key="loading", other_keys=["enthalpy", "tag"],
                             branch=br, material=w.mat.name, adsorbate=w.ads.name, temperature=tval,
                             pressure_mode=lab[0], pressure_unit=lab[1], loading_basis=lab[2], loading_unit=lab[3],
